@@ -182,10 +182,13 @@ class Ctx:
         return os.path.join(tgt, "release" if release else "debug", bin or harness)
 
     # ---------------------------------------------------------------- ties
-    def tie(self, name, gen_cmd, drv_cmd, env=None, timeout=1800, keep_samples=3, input_text=None):
+    def tie(self, name, gen_cmd, drv_cmd, env=None, timeout=1800, keep_samples=3, input_text=None, shrink_with=None):
         """Run the implementation harness (gen_cmd -> transcript on stdout), then the Lean
         driver on that transcript. Collect mismatches, monitor failures, tags."""
         t = Tie(name)
+        t.shrink_with = shrink_with   # [harness_bin, 'run'] for sequential op-line cases
+        t.drv_cmd = drv_cmd
+        t.env = env
         t0 = time.time()
         tr = os.path.join(self.rundir, name + ".transcript")
         try:
@@ -236,6 +239,59 @@ class Ctx:
         self.ties.append(t)
         return t
 
+    # ---------------------------------------------------------------- shrinking
+    def shrink(self, tie, cid, want_sig=None, budget_s=40):
+        """Delta-debug the op lines of a failing sequential case. The failure to preserve is the
+        monitor signature `want_sig`, or (want_sig None) any model/implementation mismatch."""
+        c = getattr(tie, "cases_map", {}).get(cid)
+        if not c or not tie.shrink_with:
+            return None
+        ops = [l.split(" => ")[0] for l in c["lines"]]
+        header = c["header"]
+        t_end = time.time() + budget_s
+        tmp = os.path.join(self.rundir, "shrink.case")
+
+        def fails(cand):
+            open(tmp, "w").write(header + "\n" + "\n".join(cand) + "\n#end\n")
+            try:
+                rc, out, err = sh(tie.shrink_with + [tmp], env=tie.env, timeout=60)
+            except subprocess.TimeoutExpired:
+                return False, ""
+            if want_sig is not None:
+                ok = any(l.startswith("!monitor " + want_sig) for l in out.splitlines())
+                return ok, out
+            if tie.drv_cmd is None:
+                return False, out
+            try:
+                rc, dout, derr = sh(tie.drv_cmd, timeout=60, input=out)
+            except subprocess.TimeoutExpired:
+                return False, out
+            return ("MISMATCH" in dout), out + "".join("# " + l + "\n" for l in dout.splitlines() if l.startswith("MISMATCH"))
+
+        ok, best_out = fails(ops)
+        if not ok:
+            return None
+        n = 2
+        while len(ops) >= 2 and time.time() < t_end:
+            chunk = max(1, len(ops) // n)
+            reduced = False
+            for i in range(0, len(ops), chunk):
+                cand = ops[:i] + ops[i + chunk:]
+                if not cand:
+                    continue
+                ok, out = fails(cand)
+                if ok:
+                    ops, best_out, reduced = cand, out, True
+                    n = max(n - 1, 2)
+                    break
+                if time.time() > t_end:
+                    break
+            if not reduced:
+                if chunk == 1:
+                    break
+                n = min(len(ops), n * 2)
+        return best_out
+
     # ---------------------------------------------------------------- verdict
     def write_replay(self, kind, tie, cid, text, extra=None):
         cases = getattr(tie, "cases_map", {}) if tie else {}
@@ -264,6 +320,9 @@ class Ctx:
                         out_lines.append("KNOWN-FINDING: property=%s %s (%s)" % (self.prop, sig, known_sigs[sig].get("what", msg)))
                 elif violation is None or not violation[1]:
                     p = self.write_replay("monitor", t, cid, "implementation history violates the property: %s | %s" % (sig, msg))
+                    small = self.shrink(t, cid, want_sig=sig)
+                    if small:
+                        open(p, "a").write("# ---- minimised (delta debugging over the op list), re-run on the implementation:\n" + small)
                     violation = (p, True)
         if violation is None:
             for t in self.ties:
@@ -272,6 +331,9 @@ class Ctx:
                     p = self.write_replay("correspondence", t, cid,
                                           "model/implementation correspondence broken in tie '%s': %s" % (t.name, text),
                                           "no implementation history violating the property itself was found in this run")
+                    small = self.shrink(t, cid, want_sig=None)
+                    if small:
+                        open(p, "a").write("# ---- minimised disagreement (delta debugging over the op list):\n" + small)
                     violation = (p, False); break
                 if t.errors:
                     p = self.write_replay("machinery", t, "err", "tie '%s' could not be checked: %s" % (t.name, "; ".join(t.errors)))
